@@ -51,7 +51,15 @@ func Bubble(t *testing.T, rc *core.RunCtx, body func()) {
 					if len(keep) > 8 {
 						keep = keep[:8]
 					}
-					rc.Res.InfraError = "bubble could not be left cleanly: " + msg + "\n" + strings.Join(keep, "\n\n")
+					// Goroutines of the code under test that outlive the
+					// run's clean-up (typically a Stop that was still
+					// winding down when the run's simulated-time allowance
+					// for it ran out) do not touch the run's verdict, which
+					// was reached before: counted and logged, not an
+					// infrastructure error. (C17, whose subject is Stop,
+					// judges Stop inside the run.)
+					rc.Probe("bubble_left_with_goroutines_of_the_client")
+					rc.Logf("bubble left with blocked goroutines: %s\n%s", msg, strings.Join(keep[:1], "\n"))
 				}
 				return
 			}
